@@ -169,21 +169,31 @@ SIM_SCENARIO(scen_c14, "c14", "C14", 6000000, 30000) {
             SIM_CHECK(fired == r + 1, "oracle:continue-node", "continue_node with two predecessors fired %d times after %d rounds", fired, r + 1); }
         break;
     }
-    default: {  // async_node: a foreign thread completes the gateway later
+    default: {  // async_node: a foreign thread completes the gateway later; optionally into a rejecting successor
         world.ns[0].limit = 0; world.ns[1].limit = 1;
         using AN = async_node<int, int>;
         std::vector<std::pair<int, AN::gateway_type*>> pendingw;
         sim::event wake;
         AN an(g, unlimited, [&](const int& m, AN::gateway_type& gw) { enter(0, m); gw.reserve_wait(); pendingw.push_back({m, &gw}); wake.signal(); leave(0); });
+        bool rej_succ = sim::draw_bool("rejecting_successor");
+        int sc = (int)sim::draw_range(1, 2, "succ_conc");
+        world.ns[2].limit = sc;
         function_node<int, continue_msg, queueing> sink(g, serial, sink_body(1));
-        make_edge(an, sink);
+        // successor with rejecting policy and a finite limit: a gateway put that finds it saturated is reported as
+        // rejected to the foreign thread (async_node does not buffer) and must leave nothing behind
+        function_node<int, int, rejecting> mid(g, (size_t)sc, [&](int m) { enter(2, m); leave(2); return m; });
+        if (rej_succ) { make_edge(an, mid); make_edge(mid, sink); } else make_edge(an, sink);
+        std::set<int> delivered, dropped;
         bool stop = false;
         int foreign = sim::spawn([&] {
             while (!stop || !pendingw.empty()) {
                 if (pendingw.empty()) { if (stop) break; wake.flag = false; wake.wait(); continue; }   // blocks (no polling)
                 auto pr = pendingw.back(); pendingw.pop_back();
                 for (int i = 0; i < 4; ++i) sim::upoint();
-                pr.second->try_put(pr.first); pr.second->release_wait();
+                bool ok = false;
+                for (int attempt = 0; attempt < 3 && !ok; ++attempt) { ok = pr.second->try_put(pr.first); if (!ok) for (int i = 0; i < 6; ++i) sim::upoint(); }
+                if (ok) delivered.insert(pr.first); else { dropped.insert(pr.first); SIM_CHECK(rej_succ, "oracle:unexpected-reject", "gateway try_put(%d) rejected although the successor never rejects", pr.first); }
+                pr.second->release_wait();
             }
         }, "gateway");
         do_cancel = false;
@@ -193,7 +203,9 @@ SIM_SCENARIO(scen_c14, "c14", "C14", 6000000, 30000) {
         SIM_CHECK(pendingw.empty(), "oracle:wait-for-all", "wait_for_all() returned although %zu reserve_wait calls are not released", pendingw.size());
         world.idle_declared = true; stop = true; wake.signal();
         sim::join(foreign);
-        for (int m : accepted_ids) SIM_CHECK(world.sunk[m] == 1, "oracle:message-lost", "async message %d reached the sink %d times", m, world.sunk[m]);
+        for (int m : delivered) SIM_CHECK(world.sunk[m] == 1, "oracle:message-lost", "async result %d (gateway try_put returned true) reached the sink %d times", m, world.sunk[m]);
+        for (int m : dropped) SIM_CHECK(world.sunk[m] == 0 && world.ns[2].processed[m] == 0, "oracle:message-invented", "async result %d was reported as rejected to the gateway caller but was processed", m);
+        if (!dropped.empty()) sim::probe("gateway-put-rejected");
         break;
     }
     }
